@@ -232,7 +232,7 @@ impl<T: AsRef<[u8]> + AsMut<[u8]>> Packet<T> {
 
     pub fn set_opcode(&mut self, val: Opcode) {
         let field = &mut self.buffer.as_mut()[field::FLAGS];
-        let mask = 0x3800;
+        let mask = 0x7800;
         let val: u8 = val.into();
         let val = (val as u16) << 11;
         let old = NetworkEndian::read_u16(field);
@@ -418,6 +418,9 @@ impl<'a> Repr<'a> {
         T: AsRef<[u8]> + AsMut<[u8]> + ?Sized,
     {
         packet.set_transaction_id(self.transaction_id);
+        // set_flags and set_opcode only touch their own bits: start from a zero
+        // flags word so that Z and RCODE do not depend on the buffer contents.
+        NetworkEndian::write_u16(&mut packet.buffer.as_mut()[field::FLAGS], 0);
         packet.set_flags(self.flags);
         packet.set_opcode(self.opcode);
         packet.set_question_count(1);
